@@ -49,7 +49,7 @@ def session_all(vc):
             stamp['acq'] = lock.acquisitions
     sess.on_set = on_set
     done = []
-    cb = _M(lambda errors: done.append(errors), 'callback')
+    cb = _M(lambda errors: done.append(dict(errors) if isinstance(errors, dict) else (list(errors) if isinstance(errors, (list, tuple, set)) else errors)), 'callback')      # what the callback sees when it is called, not what the container holds later
     vc.call('cassandra.cluster.Session._set_keyspace_for_all_pools', sess, 'newks', cb)
     vc.check('post/session-keyspace-updated', sess.attrs['keyspace'] == 'newks')
     # add_or_renew_pool compares a new pool's keyspace with session.keyspace and publishes the pool under this same lock:
@@ -81,7 +81,7 @@ def host_conn(vc):
     c.set_keyspace_async = lambda ks, cb: asked.append((ks, cb))
     pool, lock = P.host_connection(vc, w, None if state == 'no-connection' else c, shutdown=(state == 'shutdown'), keyspace='old')
     done = []
-    cb = _M(lambda p, errors: done.append((p, errors)), 'callback')
+    cb = _M(lambda p, errors: done.append((p, list(errors))), 'callback')      # a snapshot: what is reported at the time of the call
     returned = []
     vc.stub(P.HC + 'return_connection', lambda self_, conn, **k: returned.append(conn))
     vc.call(P.HC + '_set_keyspace_for_all_conns', pool, 'newks', cb)
@@ -99,7 +99,7 @@ def host_conn(vc):
     vc.check('ok/connection-handed-back-once', returned == [c])
 
 
-@harness('C20', 'legacy-pool-all-conns', functions=['cassandra.pool.HostConnectionPool._set_keyspace_for_all_conns'])
+@harness('C20', 'legacy-pool-all-conns', functions=['cassandra.pool.HostConnectionPool._set_keyspace_for_all_conns'], native='contracts.native.c20:replay')
 def legacy(vc):
     """legacy pool with 0..2 connections, all completion orders: callback exactly once after all connections reported, with all errors"""
     from cassandra.pool import HostConnectionPool
@@ -115,7 +115,7 @@ def legacy(vc):
     returned = []
     vc.stub('cassandra.pool.HostConnectionPool.return_connection', lambda self_, conn, **k: returned.append(conn))
     done = []
-    vc.call('cassandra.pool.HostConnectionPool._set_keyspace_for_all_conns', pool, 'newks', _M(lambda p, e: done.append((p, e)), 'cb'))
+    vc.call('cassandra.pool.HostConnectionPool._set_keyspace_for_all_conns', pool, 'newks', _M(lambda p, e: done.append((p, list(e))), 'cb'))      # snapshot at call time: an error appended after the report was never reported
     errs = {i: SObj(Exception, {'args': ('e%d' % i,)}) for i in range(n)}
     for i in order:
         vc.check('progress/not-before-last', done == [])
